@@ -162,7 +162,7 @@ func (h *vRHHome) GetLatestValue(ctx context.Context, id string, conf primitives
 	}
 	defer h.fetches.Add(1)
 	if st.fail {
-		return vErr
+		return vErrNext()
 	}
 	pm, _ := params.(map[string]any)
 	if idx, _ := pm["pageIndex"].(uint64); idx > 0 {
